@@ -1,11 +1,13 @@
 //! Suite `signed` (C02, C04, C01): a CORRECTLY SIGNED query against the real server, both transports.
 //!
-//! Case: `<edns> <their|-> <catalog> <keyname,alg,keyhex> <id> <rd> <qnamewire> <qtype> <qclass>`
+//! Case: `<edns> <their|-> <catalog> <keyname,alg,keyhex> <id> <rd> <qnamewire> <qtype> <qclass> [<dt>]`
 //!   edns      the server's EDNS UDP payload size (also the size of the UDP response buffer, as the
 //!             I/O providers allocate it)
 //!   their     the payload size the request advertises in an OPT record, `-` = no OPT
 //!   catalog   harness/src/srvcase.rs syntax
 //!   key       ONE TSIG key, installed in the server and used to sign the request
+//!   dt        seconds added to the clock for the request's "time signed" (default 0; outside +-300 the
+//!             correctly signed request is answered with a SIGNED BADTIME response carrying the server's time)
 //! The request is built with the crate's own Writer (set_id, set_rd, add_question, set_edns,
 //! set_tsig(TsigMode::Request)), the SAME octets are handed to Server::handle_message over UDP and
 //! over TCP within one wall-clock second (the response MAC covers the server's time; otherwise the
@@ -18,7 +20,7 @@ use quandary::server::{ReceivedInfo, Response, Server, Transport};
 use qv_harness::srvcase::*;
 use qv_harness::*;
 use std::net::Ipv4Addr;
-use std::time::{SystemTime, UNIX_EPOCH};
+use std::time::{Duration, SystemTime, UNIX_EPOCH};
 
 fn secs() -> u64 {
     SystemTime::now().duration_since(UNIX_EPOCH).expect("clock before 1970").as_secs()
@@ -43,7 +45,10 @@ fn signed_request(f: &[&str]) -> Vec<u8> {
     if f[1] != "-" {
         w.set_edns(f[1].parse().unwrap()).expect("edns");
     }
-    let now = SystemTime::now().try_into().unwrap();
+    let dt: i64 = f.get(9).map(|x| x.parse().unwrap()).unwrap_or(0);
+    let clock = SystemTime::now();
+    let shifted = if dt >= 0 { clock + Duration::from_secs(dt as u64) } else { clock - Duration::from_secs((-dt) as u64) };
+    let now = shifted.try_into().unwrap();
     let rr = PreparedTsigRr {
         key_name: key_name.into(),
         time_signed: now,
